@@ -5,7 +5,7 @@
    the inputs on which one of them *occurs*: the static classes are decided on the expression, the dynamic ones
    on the candidates the reference evaluation actually visits.
 
-   static   (i)  the text() function (documented, not XPath 1.0); concat (agrees, but the proofs do not cover it yet) -> ty_of
+   static   (i)  the text() function (documented, not XPath 1.0)                    -> ty_of
             (l)  an axis name that is not one of the eleven generators (AxOther), an unbound or empty prefix   -> deviate = None
    dynamic  (j)  the backend does not distinguish no namespace from the in-scope default namespace d of an element: a prefixed
                  attribute test bound to d finds the plain attribute, an un-prefixed one finds {d}l when there is no plain l -> hazard
@@ -42,6 +42,11 @@ Fixpoint ty_of (e : expr) : option ty :=
       else if str_is name FN_not || str_is name FN_boolean then match tys with [Some _] => Some TBool | _ => None end
       else if str_is name FN_contains || str_is name FN_starts_with then
         match tys with [Some _; Some _] => Some TBool | _ => None end
+      else if str_is name FN_concat then
+        match tys with
+        | _ :: _ :: _ => if forallb (fun t => match t with Some _ => true | None => false end) tys then Some TStr else None
+        | _ => None
+        end
       else None
   end.
 (* every attribute prefix is declared (an undeclared one is an XPathEvaluationError in delb and an error in XPath) *)
